@@ -5,6 +5,7 @@ From AC Require Import Num RInst Params.
 From AC.proofs Require Import ProfR.
 From AC.Init Require Import SoilBuild.
 From Coq Require Import Sorting.Sorted.
+From Interval Require Import Tactic.
 Local Open Scope R_scope.
 
 Ltac inv H := inversion H; subst; clear H.
@@ -539,3 +540,1000 @@ Proof.
       * revert Ht1. rnum. destruct (Rleb_spec (r_dzsum r2) (ls_thick L + last)); [|discriminate]. intros _. apply Rleb_true. lra.
       * unfold is_unassigned. unfold unassigned in Hu. rewrite Hu. reflexivity.
 Qed.
+
+Lemma add_layers_shape P Ls : forall hi rows rows',
+  sorted rows -> shape P hi rows -> (forall L k, In L Ls -> P (mk_asg k L)) -> add_layers rows Ls = Some rows' ->
+  exists hi', shape P hi' rows'.
+Proof.
+  induction Ls as [|L Ls IH]; intros hi rows rows' HS Hsh HP; cbn.
+  - intros E; inv E. exists hi; exact Hsh.
+  - destruct (add_layer rows L) as [r1|] eqn:E1; [|discriminate]. intros E.
+    assert (HS1 : sorted r1) by (eapply sorted_geo; [eapply add_layer_geo; exact E1 | exact HS]).
+    assert (HP1 : forall L0 k, In L0 Ls -> P (mk_asg k L0)) by (intros; apply HP; right; assumption).
+    destruct (add_layer_shape P hi rows L r1 HS Hsh (fun k => HP L k (or_introl eq_refl)) E1) as [H|H];
+      eapply IH; eauto.
+Qed.
+
+Lemma set_asg_id (r : RowR) : set_asg r (r_asg r) = r.
+Proof. destruct r; reflexivity. Qed.
+
+Definition carry (l : option AsgR) (A : list RowR) : option AsgR :=
+  fold_left (fun acc (r : RowR) => match r_asg r with Some a => Some a | None => acc end) A l.
+
+Lemma ffill_rows_app A : forall l U, ffill_rows l (A ++ U) = ffill_rows l A ++ ffill_rows (carry l A) U.
+Proof.
+  induction A as [|r A IH]; intros l U; cbn; [reflexivity|]. f_equal. rewrite IH. unfold carry. cbn.
+  destruct (r_asg r); reflexivity.
+Qed.
+
+Lemma ffill_rows_assigned A : Forall (fun r : RowR => exists a, r_asg r = Some a) A -> forall l, ffill_rows l A = A.
+Proof.
+  induction 1 as [|r A (a & Hr) _ IH]; intros l; cbn; [reflexivity|]. rewrite Hr.
+  rewrite <- Hr at 1. rewrite set_asg_id. f_equal. apply IH.
+Qed.
+
+Lemma ffill_rows_unassigned U : Forall unassigned U -> forall l, ffill_rows l U = map (fun r => set_asg r l) U.
+Proof.
+  induction 1 as [|r U Hr _ IH]; intros l; cbn; [reflexivity|]. unfold unassigned in Hr. rewrite Hr. f_equal. apply IH.
+Qed.
+
+Lemma fill_nan_blocks P hi rows rows' zs :
+  shape P hi rows -> fill_nan rows = Some (rows', zs) -> blocks P 0 hi rows'.
+Proof.
+  intros (A & U & -> & HA & HU) H.
+  pose proof (fill_nan_assigned _ _ _ H) as Hass.
+  unfold fill_nan in H. destruct (existsb _ _); [discriminate|]. inv H.
+  eapply blocks_asg; [|apply redz_rows_asg].
+  rewrite ffill_rows_app, (ffill_rows_assigned A (blocks_assigned _ _ _ _ HA)), (ffill_rows_unassigned U HU).
+  destruct A as [|r A].
+  - (* nothing assigned: every row would stay NaN *)
+    destruct U as [|u U]; [cbn; exact HA|]. exfalso.
+    assert (Hu : r_asg u = None) by (inv HU; assumption).
+    cbn in Hass. rewrite Hu in Hass. apply Forall_inv in Hass. destruct Hass as (a & Ha). cbn in Ha. discriminate.
+  - destruct (blocks_extend _ _ _ _ HA ltac:(discriminate) None) as (a & Ec & Hext).
+    unfold carry. rewrite Ec. apply Hext. rewrite Forall_map. apply Forall_forall. intros u _. reflexivity.
+Qed.
+
+(* readable form of [blocks]: every row is assigned; the first layer is 1; going down, a row either carries exactly the
+   assignment of the row above or starts the next layer *)
+Fixpoint contiguous (prev : option AsgR) (rows : list RowR) : Prop :=
+  match rows with
+  | [] => True
+  | r :: rest =>
+    exists a, r_asg r = Some a /\
+              match prev with None => a_layer a = 1%Z | Some b => a = b \/ a_layer a = (a_layer b + 1)%Z end /\
+              contiguous (Some a) rest
+  end.
+
+Lemma contiguous_block a B : Forall (assigned_as a) B -> forall rest, contiguous (Some a) rest -> contiguous (Some a) (B ++ rest).
+Proof.
+  induction 1 as [|r B Hr _ IH]; intros rest H; cbn; [exact H|]. exists a. repeat split; auto.
+Qed.
+
+Lemma blocks_contiguous P lo hi A : blocks P lo hi A -> forall prev,
+  match prev with None => lo = 0%Z | Some b => a_layer b = lo end -> contiguous prev A.
+Proof.
+  induction 1 as [lo|lo hi a B A HB HF Ha HP HA IH]; intros prev Hp; [exact I|].
+  destruct B as [|r B]; [contradiction|]. inv HF. cbn. exists a. split; [exact H1|]. split.
+  - destruct prev as [b|]; [right; lia | lia].
+  - apply contiguous_block; [exact H2|]. apply IH. exact Ha.
+Qed.
+
+(* THEOREM 1, layer part: for non-negative thicknesses the built profile consists of contiguous layers 1..n from the
+   surface and every compartment carries the properties of one of the given layer specifications (with tau computed
+   from its Ksat and th_dry = th_wp/2, see [mk_asg]) *)
+Definition from_spec (layers : list SpecR) (a : AsgR) : Prop := exists L, In L layers /\ a = mk_asg (a_layer a) L.
+
+Theorem build_layers_contiguous dz layers rows zs :
+  Forall (fun d => 0 <= d) dz -> build_rows dz layers = Some (rows, zs) ->
+  exists n, blocks (from_spec layers) 0 n rows /\ contiguous None rows.
+Proof.
+  intros Hd. unfold build_rows. destruct (add_layers _ _) as [r1|] eqn:E; [|discriminate]. intros H.
+  destruct (create_rows_sorted dz (nofZ num_ops 0) Hd) as [HS _].
+  destruct (add_layers_shape (from_spec layers) layers 0 (create_df dz) r1 HS) as (n & Hn); auto.
+  - exists [], (create_df dz). repeat split; [constructor|]. apply create_rows_unassigned.
+  - intros L k HL. exists L. split; [exact HL|reflexivity].
+  - exists n. pose proof (fill_nan_blocks _ _ _ _ _ Hn H) as Hb. split; [exact Hb|].
+    eapply blocks_contiguous; [exact Hb|reflexivity].
+Qed.
+
+(* THEOREM 1+2 together, in the vocabulary of ProfR.v: a profile built from whole-centimetre thicknesses and layers with
+   0 < wp < fc < s and Ksat >= 1 is well formed *)
+Definition strict_layer (L : SpecR) : Prop := 0 < ls_wp L /\ ls_wp L < ls_fc L /\ ls_fc L < ls_s L /\ 1 <= ls_ksat L.
+
+Lemma to_comps_dz rows p : to_comps rows = Some p -> map c_dz p = map r_dz rows.
+Proof.
+  revert p; induction rows as [|r rows IH]; intros p; cbn.
+  - intros E; inv E; reflexivity.
+  - destruct (to_comp r) as [c|] eqn:Ec; [|discriminate]. destruct (to_comps rows) as [cs|]; [|discriminate].
+    intros E; inv E. cbn. f_equal; [|apply IH; reflexivity].
+    unfold to_comp in Ec. destruct (r_asg r); [|discriminate]. inv Ec. reflexivity.
+Qed.
+
+Theorem build_wf dz layers p :
+  Forall cm dz -> Forall strict_layer layers -> build_profile dz layers = Some p -> wf_prof p.
+Proof.
+  intros Hc Hv Hb. unfold wf_prof.
+  assert (Hdz : Forall (fun c => 0 < c_dz c) p).
+  { unfold build_profile in Hb. destruct (build_rows dz layers) as [[rows zs]|] eqn:E; [|discriminate].
+    destruct (build_wf_geometry _ _ _ _ Hc E) as (M & _ & _). apply to_comps_dz in Hb. rewrite M in Hb.
+    rewrite <- Hb in Hc. rewrite Forall_map in Hc. eapply Forall_impl; [|exact Hc]. intros c Hcm. apply cm_pos; exact Hcm. }
+  assert (Hs : Forall (fun c => c_th_fc c < c_th_s c /\ 8 / 100 <= c_tau c /\ 1 <= c_ksat c) p).
+  { unfold build_profile in Hb. destruct (build_rows dz layers) as [[rows zs]|] eqn:E; [|discriminate].
+    apply (to_comps_forall _ (fun a => a_fc a < a_s a /\ 8 / 100 <= a_tau a /\ 1 <= a_ksat a) rows p); [| |exact Hb].
+    - intros r a c Ea Ha Ec. unfold to_comp in Ec. rewrite Ea in Ec. inv Ec. exact Ha.
+    - eapply build_rows_sat; [|exact E]. intros L k HL. rewrite Forall_forall in Hv.
+      destruct (Hv L HL) as (H1 & H2 & H3 & H4). cbn. repeat split; auto. apply tau_of_pos; exact H4. }
+  assert (Ho : Forall comp_ordered p).
+  { eapply build_ordered; [|exact Hb]. eapply Forall_impl; [|exact Hv]. intros L (H1 & H2 & H3 & H4).
+    unfold valid_layer. repeat split; lra. }
+  rewrite Forall_forall in *. intros c Hin. destruct (Ho c Hin). destruct (Hs c Hin) as (S1 & S2 & S3).
+  constructor; auto; try lra.
+Qed.
+
+(* ============================================================================================
+   5. initial water content *)
+(* pandas' group_mean (Kahan summation / count) of equal values is that value *)
+Lemma kahan_sum xs : forall s c, c = 0 -> kahan s c xs = s + Rsum xs.
+Proof.
+  induction xs as [|v xs IH]; intros s c Hc; cbn [kahan Rsum]; [lra|]. subst c. rewrite IH; rnum; lra.
+Qed.
+
+Lemma len_F_pos (xs : list R) : xs <> [] -> (0 < len_F xs)%Z.
+Proof.
+  assert (H : forall l : list R, (0 <= len_F l)%Z) by (induction l; cbn [len_F]; lia).
+  destruct xs as [|x xs]; [contradiction|]. intros _. cbn [len_F]. specialize (H xs). lia.
+Qed.
+
+Lemma kahan_mean_const x xs : xs <> [] -> (forall v, In v xs -> v = x) -> kahan_mean xs = x.
+Proof.
+  intros HN Hc. unfold kahan_mean. rnum. rewrite kahan_sum by reflexivity.
+  assert (E : Rsum xs = x * IZR (len_F xs)).
+  { clear HN. induction xs as [|v xs IH]; cbn [Rsum len_F]; [lra|].
+    rewrite plus_IZR, (Hc v) by (left; reflexivity). rewrite IH by (intros; apply Hc; right; assumption). lra. }
+  rewrite E. pose proof (len_F_pos xs HN) as Hp. apply IZR_lt in Hp. field. lra.
+Qed.
+
+(* the rows of one layer all carry the same assignment *)
+Definition uniform_layers (rows : list RowR) : Prop :=
+  forall r1 r2 a1 a2, In r1 rows -> In r2 rows -> r_asg r1 = Some a1 -> r_asg r2 = Some a2 ->
+                      a_layer a1 = a_layer a2 -> a1 = a2.
+
+Lemma blocks_layers P lo hi A : blocks P lo hi A ->
+  Forall (fun r => exists a, r_asg r = Some a /\ (lo < a_layer a <= hi)%Z) A.
+Proof.
+  induction 1 as [lo|lo hi a B A HB HF Ha HP HA IH]; [constructor|].
+  pose proof (blocks_range _ _ _ _ HA) as (Hr & _).
+  apply Forall_app; split.
+  - eapply Forall_impl; [|exact HF]. intros r Hr'. exists a. split; [exact Hr'|lia].
+  - eapply Forall_impl; [|exact IH]. intros r (a' & E & Hl). exists a'. split; [exact E|lia].
+Qed.
+
+Lemma blocks_uniform P lo hi A : blocks P lo hi A -> uniform_layers A.
+Proof.
+  induction 1 as [lo|lo hi a B A HB HF Ha HP HA IH]; intros r1 r2 a1 a2 I1 I2 E1 E2 El; [destruct I1|].
+  pose proof (blocks_layers _ _ _ _ HA) as HL. rewrite Forall_forall in HL, HF.
+  apply in_app_or in I1. apply in_app_or in I2.
+  destruct I1 as [I1|I1], I2 as [I2|I2].
+  - pose proof (HF _ I1) as F1. pose proof (HF _ I2) as F2. unfold assigned_as in *. congruence.
+  - pose proof (HF _ I1) as F1. destruct (HL _ I2) as (a' & E' & Hl). unfold assigned_as in *.
+    assert (a1 = a) by congruence. assert (a2 = a') by congruence. subst. lia.
+  - pose proof (HF _ I2) as F2. destruct (HL _ I1) as (a' & E' & Hl). unfold assigned_as in *.
+    assert (a2 = a) by congruence. assert (a1 = a') by congruence. subst. lia.
+  - exact (IH r1 r2 a1 a2 I1 I2 E1 E2 El).
+Qed.
+
+Lemma layer_vals_const (f : AsgR -> R) rows r0 a0 :
+  uniform_layers rows -> In r0 rows -> r_asg r0 = Some a0 ->
+  layer_vals f (a_layer a0) rows <> [] /\ forall v, In v (layer_vals f (a_layer a0) rows) -> v = f a0.
+Proof.
+  intros HU I0 E0. split.
+  - unfold layer_vals. intros E. assert (Hin : In (f a0) (flat_map (fun r : RowR => match r_asg r with
+        | Some a => if (a_layer a =? a_layer a0)%Z then [f a] else [] | None => [] end) rows)).
+    { apply in_flat_map. exists r0. split; [exact I0|]. rewrite E0, Z.eqb_refl. left; reflexivity. }
+    rewrite E in Hin. destruct Hin.
+  - intros v Hv. unfold layer_vals in Hv. apply in_flat_map in Hv. destruct Hv as (r & Ir & Hv).
+    destruct (r_asg r) as [a|] eqn:Ea; [|destruct Hv].
+    destruct (a_layer a =? a_layer a0)%Z eqn:El; [|destruct Hv]. apply Z.eqb_eq in El.
+    destruct Hv as [<-|[]]. f_equal. exact (HU r r0 a a0 Ir I0 Ea E0 El).
+Qed.
+
+Lemma hyd_lookup_spec rows r0 a0 :
+  uniform_layers rows -> In r0 rows -> r_asg r0 = Some a0 ->
+  hyd_lookup rows (a_layer a0) = Some (a_wp a0, a_fc a0, a_s a0).
+Proof.
+  intros HU I0 E0. unfold hyd_lookup.
+  destruct (layer_vals_const a_wp rows r0 a0 HU I0 E0) as [N1 C1].
+  destruct (layer_vals_const a_fc rows r0 a0 HU I0 E0) as [N2 C2].
+  destruct (layer_vals_const a_s rows r0 a0 HU I0 E0) as [N3 C3].
+  destruct (layer_vals a_wp (a_layer a0) rows) eqn:E; [contradiction|].
+  rewrite (kahan_mean_const _ _ N1 C1), (kahan_mean_const _ _ N2 C2), (kahan_mean_const _ _ N3 C3). reflexivity.
+Qed.
+
+Lemma hyd_lookup_some rows L h : hyd_lookup rows L = Some h ->
+  exists r a, In r rows /\ r_asg r = Some a /\ a_layer a = L.
+Proof.
+  unfold hyd_lookup. destruct (layer_vals a_wp L rows) as [|x l] eqn:E; [discriminate|]. intros _.
+  assert (Hin : In x (layer_vals a_wp L rows)) by (rewrite E; left; reflexivity).
+  unfold layer_vals in Hin. apply in_flat_map in Hin. destruct Hin as (r & Ir & Hv).
+  destruct (r_asg r) as [a|] eqn:Ea; [|destruct Hv]. destruct (a_layer a =? L)%Z eqn:El; [|destruct Hv].
+  apply Z.eqb_eq in El. eauto.
+Qed.
+
+(* SPECIFICATION.  What one entry (value v) asks for in a layer with assignment a *)
+Definition requested (ty : WcType) (a : AsgR) (v : WcVal (F:=R)) : option R :=
+  match ty, v with
+  | TProp, VTok PSAT => Some (a_s a)
+  | TProp, VTok PFC => Some (a_fc a)
+  | TProp, VTok PWP => Some (a_wp a)
+  | TProp, VTok POther => Some 0
+  | TPct, VNum x => Some (a_wp a + x / 100 * (a_fc a - a_wp a))
+  | TNum, VNum x => Some x
+  | _, _ => None
+  end.
+
+Lemma point_value_requested ty a v x :
+  point_value ty (a_wp a, a_fc a, a_s a) v = Some x -> requested ty a v = Some x.
+Proof. unfold point_value, requested. destruct ty, v as [[]|]; rnum; auto; discriminate. Qed.
+
+(* method Layer: the water content of a compartment whose layer has assignment a is the value requested by the LAST
+   entry (d, v) whose layer number int(d) is that layer; [cur] (initially 0) when no entry names the layer *)
+Fixpoint spec_layer_value (ty : WcType) (a : AsgR) (dl : list R) (vals : list (WcVal (F:=R))) (cur : R) : R :=
+  match dl, vals with
+  | d :: dl', v :: vals' =>
+    spec_layer_value ty a dl' vals'
+      (if (ntrunc num_ops d =? a_layer a)%Z then match requested ty a v with Some x => x | None => cur end else cur)
+  | _, _ => cur
+  end.
+
+Lemma combine_map_snd {A B} (g : A * B -> B) (l : list A) : forall t : list B,
+  combine l (map g (combine l t)) = map (fun rt => (fst rt, g rt)) (combine l t).
+Proof. induction l as [|x l IH]; intros [|y t]; cbn; try reflexivity. f_equal. apply IH. Qed.
+
+Lemma map_combine_snd_id (rows : list RowR) : forall th0 : list R, length th0 = length rows ->
+  map (fun rt : RowR * R => match r_asg (fst rt) with Some a => snd rt | None => snd rt end) (combine rows th0) = th0.
+Proof.
+  induction rows as [|r rows IH]; intros [|t th0] H; cbn in *; try reflexivity; try discriminate.
+  destruct (r_asg r); f_equal; apply IH; congruence.
+Qed.
+
+Lemma assign_layers_spec ty rows :
+  uniform_layers rows -> Forall (fun r => exists a, r_asg r = Some a) rows ->
+  forall dl vals values th0, length th0 = length rows -> iwc_values ty MLayer rows dl vals = Some values ->
+  assign_layers rows th0 dl values =
+  map (fun rt => match r_asg (fst rt) with Some a => spec_layer_value ty a dl vals (snd rt) | None => snd rt end)
+      (combine rows th0).
+Proof.
+  intros HU HA dl. induction dl as [|d dl IH]; intros vals values th0 Hlen E.
+  - destruct vals as [|v vals]; cbn in E; [inv E|discriminate]. cbn [assign_layers spec_layer_value].
+    symmetry. apply map_combine_snd_id; exact Hlen.
+  - destruct vals as [|v vals]; cbn in E.
+    + inv E. cbn [assign_layers spec_layer_value]. symmetry. apply map_combine_snd_id; exact Hlen.
+    + match type of E with match ?h with _ => _ end = _ => destruct h as [x|] eqn:Eh; [|discriminate] end.
+      destruct (iwc_values ty MLayer rows dl vals) as [xs|] eqn:Ex; [|discriminate]. inv E.
+      cbn [assign_layers]. rewrite (IH vals xs _); [| |exact Ex].
+      2:{ rewrite map_length, combine_length, Hlen. apply Nat.min_id. }
+      rewrite combine_map_snd, map_map.
+      apply map_ext_in. intros [r t] Hin. cbn [fst snd].
+      assert (Ir : In r rows) by (eapply in_combine_l; exact Hin).
+      rewrite Forall_forall in HA. destruct (HA r Ir) as (a & Ea). rewrite Ea.
+      unfold row_layer. rewrite Ea. cbn [spec_layer_value]. rewrite (Z.eqb_sym (ntrunc num_ops d)).
+      destruct (a_layer a =? ntrunc num_ops d)%Z eqn:El; [|reflexivity]. apply Z.eqb_eq in El.
+      (* the entry names this row's layer: the model's value is the requested one *)
+      assert (Hreq : requested ty a v = Some x).
+      { destruct ty.
+        - unfold hyd_lookup_f in Eh. destruct (neqb _ _ _); [|discriminate].
+          destruct (hyd_lookup rows (ntrunc num_ops d)) as [h|] eqn:Eh'; [|discriminate].
+          rewrite <- El, (hyd_lookup_spec rows r a HU Ir Ea) in Eh'. inv Eh'. apply point_value_requested; exact Eh.
+        - unfold hyd_lookup_f in Eh. destruct (neqb _ _ _); [|discriminate].
+          destruct (hyd_lookup rows (ntrunc num_ops d)) as [h|] eqn:Eh'; [|discriminate].
+          rewrite <- El, (hyd_lookup_spec rows r a HU Ir Ea) in Eh'. inv Eh'. apply point_value_requested; exact Eh.
+        - destruct v; [discriminate|]. inv Eh. reflexivity. }
+      rewrite Hreq. reflexivity.
+Qed.
+
+(* THEOREM 5, method Layer *)
+Theorem iwc_layer_spec ty rows zs dl vals th :
+  uniform_layers rows -> Forall (fun r => exists a, r_asg r = Some a) rows ->
+  initial_wc ty MLayer rows zs dl vals = Some th ->
+  th = map (fun r => match r_asg r with Some a => spec_layer_value ty a dl vals 0 | None => 0 end) rows.
+Proof.
+  intros HU HA. unfold initial_wc. destruct (iwc_values ty MLayer rows dl vals) as [values|] eqn:E; [|discriminate].
+  intros H; inv H. rewrite (assign_layers_spec ty rows HU HA dl vals values _ (map_length _ _) E).
+  clear. induction rows as [|r rows IH]; cbn [map combine fst snd]; [reflexivity|]. f_equal. exact IH.
+Qed.
+
+(* a layer that no entry names keeps the initial 0 — e.g. the default InitialWaterContent(depth_layer=[1], value=['FC'])
+   on the two-layer built-in soils Paddy and ac_TunisLocal leaves layer 2 at th = 0 < th_dry *)
+Lemma spec_layer_uncovered ty a : forall dl vals cur,
+  Forall (fun d => ntrunc num_ops d <> a_layer a) dl -> spec_layer_value ty a dl vals cur = cur.
+Proof.
+  induction dl as [|d dl IH]; intros [|v vals] cur H; cbn [spec_layer_value]; try reflexivity.
+  inv H. rewrite IH by assumption. destruct (Z.eqb_spec (ntrunc num_ops d) (a_layer a)); [contradiction|reflexivity].
+Qed.
+
+Theorem iwc_in_bounds_refuted ty rows zs dl vals th r a :
+  uniform_layers rows -> Forall (fun r => exists a, r_asg r = Some a) rows ->
+  initial_wc ty MLayer rows zs dl vals = Some th ->
+  In r rows -> r_asg r = Some a -> 0 < a_dry a -> Forall (fun d => ntrunc num_ops d <> a_layer a) dl ->
+  exists i, nth_error rows i = Some r /\ nth_error th i = Some 0 /\ ~ (a_dry a <= 0).
+Proof.
+  intros HU HA H Ir Ea Hdry Hun. rewrite (iwc_layer_spec _ _ _ _ _ _ HU HA H).
+  destruct (In_nth_error _ _ Ir) as (i & Hi). exists i. split; [exact Hi|]. split; [|lra].
+  rewrite nth_error_map, Hi. cbn. rewrite Ea, spec_layer_uncovered by exact Hun. reflexivity.
+Qed.
+
+Lemma spec_layer_bounds ty a lo hi : forall dl vals cur,
+  (lo <= cur <= hi \/ Exists (fun dv => ntrunc num_ops (fst dv) = a_layer a) (combine dl vals)) ->
+  Forall (fun v => exists x, requested ty a v = Some x /\ lo <= x <= hi) vals ->
+  lo <= spec_layer_value ty a dl vals cur <= hi.
+Proof.
+  induction dl as [|d dl IH]; intros [|v vals] cur H HV; cbn [spec_layer_value combine] in *;
+    try (destruct H as [H|H]; [exact H|inv H]).
+  inv HV. destruct H2 as (x & Ex & Hx). rewrite Ex. apply IH; [|assumption].
+  destruct (Z.eqb_spec (ntrunc num_ops d) (a_layer a)) as [El|El]; [left; exact Hx|].
+  destruct H as [H|H]; [left; exact H|]. inv H; [cbn in H1; contradiction|right; assumption].
+Qed.
+
+Lemma in_bounds_of_rows (g : AsgR -> R) rows : forall p,
+  to_comps rows = Some p ->
+  (forall r a, In r rows -> r_asg r = Some a -> a_dry a <= g a <= a_s a) ->
+  in_bounds p (map (fun r => match r_asg r with Some a => g a | None => 0 end) rows).
+Proof.
+  induction rows as [|r rows IH]; intros p; cbn.
+  - intros E _; inv E. constructor.
+  - destruct (to_comp r) as [c|] eqn:Ec; [|discriminate]. destruct (to_comps rows) as [cs|]; [|discriminate].
+    intros E H; inv E. unfold to_comp in Ec. destruct (r_asg r) as [a|] eqn:Ea; [|discriminate]. inv Ec.
+    constructor; [cbn; apply (H r a); auto|]. apply IH; [reflexivity|]. intros; eapply H; eauto.
+Qed.
+
+(* THEOREM 5, bounds (method Layer): when every layer of the profile is named by some entry and every requested value lies
+   between wilting point and saturation, the initial water content is within [th_dry, th_s] *)
+Theorem iwc_layer_in_bounds ty rows zs dl vals th p :
+  uniform_layers rows -> rows_sat asg_ok rows -> to_comps rows = Some p ->
+  initial_wc ty MLayer rows zs dl vals = Some th ->
+  (forall r a, In r rows -> r_asg r = Some a ->
+     Exists (fun dv => ntrunc num_ops (fst dv) = a_layer a) (combine dl vals) /\
+     Forall (fun v => exists x, requested ty a v = Some x /\ a_wp a <= x <= a_s a) vals) ->
+  in_bounds p th.
+Proof.
+  intros HU Hok Hp H Hreq.
+  assert (HA : Forall (fun r => exists a, r_asg r = Some a) rows).
+  { clear -Hp. revert p Hp. induction rows as [|r rows IH]; intros p Hp; [constructor|]. cbn in Hp.
+    destruct (to_comp r) as [c|] eqn:Ec; [|discriminate]. destruct (to_comps rows) as [cs|] eqn:Ecs; [|discriminate].
+    constructor; [|eapply IH; reflexivity]. unfold to_comp in Ec. destruct (r_asg r); [eauto|discriminate]. }
+  rewrite (iwc_layer_spec _ _ _ _ _ _ HU HA H). apply in_bounds_of_rows; [exact Hp|].
+  intros r a Ir Ea. destruct (Hreq r a Ir Ea) as [Hex Hv].
+  unfold rows_sat in Hok. rewrite Forall_forall in Hok. specialize (Hok r Ir). rewrite Ea in Hok. destruct Hok.
+  assert (Hb : a_wp a <= spec_layer_value ty a dl vals 0 <= a_s a) by (apply spec_layer_bounds; auto).
+  lra.
+Qed.
+
+(* the usual requests are between wilting point and saturation *)
+Definition good_val (ty : WcType) (v : WcVal (F:=R)) : Prop :=
+  match ty, v with
+  | TProp, VTok PSAT | TProp, VTok PFC | TProp, VTok PWP => True
+  | TPct, VNum x => 0 <= x <= 100
+  | _, _ => False
+  end.
+
+Lemma good_val_requested ty a v : asg_ok a -> good_val ty v ->
+  exists x, requested ty a v = Some x /\ a_wp a <= x <= a_s a.
+Proof.
+  intros [] Hg. destruct ty, v as [[]|x]; cbn in Hg; try contradiction; cbn; eexists; (split; [reflexivity|]); try lra.
+  assert (0 <= x / 100 * (a_fc a - a_wp a) <= 1 * (a_fc a - a_wp a)); [|lra].
+  split; [apply Rmult_le_pos; lra | apply Rmult_le_compat_r; lra].
+Qed.
+
+(* --------------------------------------------------------------------------------------------
+   method Depth.  SPECIFICATION (declarative): y is the piecewise-linear interpolation of the points [pts]
+   (sorted by strictly increasing depth) at x, constant beyond the first and the last point *)
+Definition consec (p q : R * R) (pts : list (R * R)) : Prop := exists l1 l2, pts = l1 ++ p :: q :: l2.
+
+Definition is_interp (pts : list (R * R)) (x y : R) : Prop :=
+  (exists p rest, pts = p :: rest /\ x <= fst p /\ y = snd p) \/
+  (exists p front, pts = front ++ [p] /\ fst p <= x /\ y = snd p) \/
+  (exists p q, consec p q pts /\ fst p <= x <= fst q /\ fst p < fst q /\
+               y = snd p + (snd q - snd p) * (x - fst p) / (fst q - fst p)).
+
+Definition increasing (xs : list R) : Prop := StronglySorted Rlt xs.
+
+Lemma consec_cons p q e pts : consec p q pts -> consec p q (e :: pts).
+Proof. intros (l1 & l2 & ->). exists (e :: l1), l2. reflexivity. Qed.
+
+Lemma is_interp_cons e pts x y : pts <> [] -> fst e <= x ->
+  ((exists p front, pts = front ++ [p] /\ fst p <= x /\ y = snd p) \/
+   (exists p q, consec p q pts /\ fst p <= x <= fst q /\ fst p < fst q /\
+                y = snd p + (snd q - snd p) * (x - fst p) / (fst q - fst p))) ->
+  is_interp (e :: pts) x y.
+Proof.
+  intros HN He [(p & front & -> & H1 & H2)|(p & q & Hc & H1 & H2 & H3)].
+  - right; left. exists p, (e :: front). repeat split; auto.
+  - right; right. exists p, q. repeat split; try tauto. apply consec_cons; exact Hc.
+Qed.
+
+Lemma interp_seg_spec xs : forall ys x0 y0 x, x0 <= x -> increasing (x0 :: xs) -> length xs = length ys ->
+  let y := interp_seg x x0 y0 xs ys in
+  let pts := combine (x0 :: xs) (y0 :: ys) in
+  (exists p front, pts = front ++ [p] /\ fst p <= x /\ y = snd p) \/
+  (exists p q, consec p q pts /\ fst p <= x <= fst q /\ fst p < fst q /\
+               y = snd p + (snd q - snd p) * (x - fst p) / (fst q - fst p)).
+Proof.
+  induction xs as [|x1 xs IH]; intros [|y1 ys] x0 y0 x Hx HS Hl; try discriminate; cbn [interp_seg combine].
+  - left. exists (x0, y0), []. repeat split; auto.
+  - inv HS. inv H2. rnum. destruct (Rleb_spec x1 x) as [H1x|H1x].
+    + cbn in Hl. destruct (IH ys x1 y1 x H1x H1 ltac:(congruence)) as [(p & front & E & A & B)|(p & q & Hc & A & B & C)].
+      * left. exists p, ((x0, y0) :: front). cbn [combine] in E. rewrite E. repeat split; auto.
+      * right. exists p, q. repeat split; try tauto. apply consec_cons. exact Hc.
+    + right. exists (x0, y0), (x1, y1). cbn [fst snd]. split; [exists [], (combine xs ys); reflexivity|].
+      assert (x0 < x1) by lra. repeat split; try lra.
+      destruct (Reqb_spec x0 x) as [->|Hne]; [field; lra | field; lra].
+Qed.
+
+Lemma last_F_last (xs : list R) : forall d, exists front, d :: xs = front ++ [last_F d xs].
+Proof.
+  induction xs as [|x xs IH]; intros d; cbn.
+  - exists []. reflexivity.
+  - destruct (IH x) as (front & E). exists (d :: front). rewrite E. reflexivity.
+Qed.
+
+Lemma combine_snoc (xs : list R) : forall (ys : list R) fx fy x y, length xs = length ys -> xs = fx ++ [x] -> ys = fy ++ [y] ->
+  combine xs ys = combine fx fy ++ [(x, y)].
+Proof.
+  intros ys fx fy x y Hl -> ->. rewrite !app_length in Hl. cbn in Hl.
+  assert (Hl' : length fx = length fy) by lia. clear Hl. revert fy Hl'.
+  induction fx as [|a fx IH]; intros [|b fy] Hl'; try discriminate; cbn; [reflexivity|]. f_equal. apply IH. cbn in Hl'. lia.
+Qed.
+
+(* np.interp against the declarative specification *)
+Lemma interp_spec x xs ys y : increasing xs -> length xs = length ys -> interp x xs ys = Some y ->
+  is_interp (combine xs ys) x y.
+Proof.
+  intros HS Hl. unfold interp. destruct xs as [|x0 xs], ys as [|y0 ys]; try discriminate. cbn in Hl.
+  rnum. destruct (Rltb_spec (last_F x0 xs) x) as [Hlast|Hlast].
+  - intros E; injection E as <-. right; left.
+    destruct (last_F_last xs x0) as (fx & Ex). destruct (last_F_last ys y0) as (fy & Ey).
+    exists (last_F x0 xs, last_F y0 ys), (combine fx fy). split; [apply combine_snoc; auto; cbn; congruence|].
+    cbn. split; [lra|reflexivity].
+  - destruct (Rltb_spec x x0) as [H0|H0]; intros E; injection E as <-.
+    + left. exists (x0, y0), (combine xs ys). repeat split; cbn; lra.
+    + destruct (interp_seg_spec xs ys x0 y0 x ltac:(lra) HS ltac:(congruence)) as [H|H].
+      * right; left. exact H.
+      * right; right. exact H.
+Qed.
+
+(* the end points the code adds — (0, first value) when the first depth is positive, (zSoil, last value) when the last
+   depth is above the profile bottom — do not change the interpolant *)
+Lemma is_interp_prepend x0 d0 v0 pts x y : x0 < d0 ->
+  is_interp ((x0, v0) :: (d0, v0) :: pts) x y -> is_interp ((d0, v0) :: pts) x y.
+Proof.
+  intros H0 [(p & rest & E & A & B)|[(p & front & E & A & B)|(p & q & (l1 & l2 & E) & A & B & C)]].
+  - injection E as <- <-. cbn in *. left. exists (d0, v0), pts. repeat split; cbn; lra.
+  - right; left. destruct front as [|f front]; [discriminate|]. cbn in E. injection E as <- E.
+    exists p, front. repeat split; auto.
+  - destruct l1 as [|e l1]; cbn in E.
+    + injection E as <- <- <-. cbn in *. left. exists (d0, v0), pts. repeat split; cbn; [lra|]. subst y. field. lra.
+    + injection E as <- E. right; right. exists p, q. repeat split; try tauto. exists l1, l2. exact E.
+Qed.
+
+Lemma is_interp_append pts dl vl zs x y : dl < zs ->
+  is_interp ((pts ++ [(dl, vl)]) ++ [(zs, vl)]) x y -> is_interp (pts ++ [(dl, vl)]) x y.
+Proof.
+  intros Hz [(p & rest & E & A & B)|[(p & front & E & A & B)|(p & q & (l1 & l2 & E) & A & B & C)]].
+  - left. destruct pts as [|e pts]; cbn in E.
+    + injection E as <- _. exists (dl, vl), []. repeat split; auto.
+    + injection E as <- _. exists e, (pts ++ [(dl, vl)]). repeat split; auto.
+  - apply app_inj_tail in E. destruct E as [_ <-]. cbn in *. right; left. exists (dl, vl), pts. repeat split; cbn; lra.
+  - induction l2 as [|e l2' _] using rev_ind.
+    + (* the added segment is flat *)
+      replace (l1 ++ [p; q]) with ((l1 ++ [p]) ++ [q]) in E by (rewrite <- app_assoc; reflexivity).
+      apply app_inj_tail in E. destruct E as [E <-]. apply app_inj_tail in E. destruct E as [_ <-]. cbn in *.
+      right; left. exists (dl, vl), pts. repeat split; cbn; [lra|]. subst y. field. lra.
+    + replace (l1 ++ p :: q :: l2' ++ [e]) with ((l1 ++ p :: q :: l2') ++ [e]) in E by (rewrite <- app_assoc; reflexivity).
+      apply app_inj_tail in E. destruct E as [E _].
+      right; right. exists p, q. repeat split; try tauto. exists l1, l2'. exact E.
+Qed.
+
+(* mid-depths as the initial-water-content code recomputes them from dzsum *)
+Fixpoint mids (top : R) (rows : list RowR) : list R :=
+  match rows with [] => [] | r :: rest => (top + r_dzsum r) / 2 :: mids (r_dzsum r) rest end.
+
+Lemma interp_rows_forall2 xs ys rows : forall top th, interp_rows top rows xs ys = Some th ->
+  Forall2 (fun mid t => interp mid xs ys = Some t) (mids top rows) th.
+Proof.
+  induction rows as [|r rows IH]; intros top th; cbn.
+  - intros E; inv E. constructor.
+  - rnum. destruct (interp ((top + r_dzsum r) / 2) xs ys) as [t|] eqn:Et; [|discriminate].
+    destruct (interp_rows (r_dzsum r) rows xs ys) as [ts|] eqn:Ets; [|discriminate]. intros E; inv E.
+    constructor; [exact Et|apply IH; exact Ets].
+Qed.
+
+Lemma increasing_le_last l : forall d, increasing (d :: l) -> Forall (fun e => e <= last_F d l) (d :: l).
+Proof.
+  induction l as [|x l IH]; intros d H; cbn.
+  - constructor; [lra|constructor].
+  - inv H. pose proof (IH x H2) as Hx. constructor; [|exact Hx].
+    inv H3. inv Hx. lra.
+Qed.
+
+Lemma increasing_snoc l z : increasing l -> Forall (fun e => e < z) l -> increasing (l ++ [z]).
+Proof.
+  induction 1 as [|x l HS IH HF]; intros Hz; cbn; [repeat constructor|].
+  inv Hz. constructor; [apply IH; assumption|]. apply Forall_app; split; [exact HF|]. constructor; [lra|constructor].
+Qed.
+
+Lemma Forall2_imp {A B} (P Q : A -> B -> Prop) l1 l2 : (forall a b, P a b -> Q a b) -> Forall2 P l1 l2 -> Forall2 Q l1 l2.
+Proof. intros H. induction 1; constructor; auto. Qed.
+
+Lemma nat_eqb_len_true {A B} (a : list A) (b : list B) : nat_eqb_len a b = true -> length a = length b.
+Proof. unfold nat_eqb_len. apply Nat.eqb_eq. Qed.
+
+(* THEOREM 5, method Depth: the water content of every compartment is the piecewise-linear interpolation of the user's
+   points (depth_i, value_i) at the compartment's mid-depth, constant beyond the first and the last point *)
+Theorem iwc_depth_spec ty rows zs dl vals values th :
+  increasing dl ->
+  iwc_values ty MDepth rows dl vals = Some values ->
+  initial_wc ty MDepth rows zs dl vals = Some th ->
+  Forall2 (fun mid t => is_interp (combine dl values) mid t) (mids 0 rows) th.
+Proof.
+  intros Hinc Ev. unfold initial_wc. rewrite Ev.
+  destruct dl as [|d0 dl']; [discriminate|]. destruct values as [|v0 values']; [discriminate|].
+  destruct (nat_eqb_len (d0 :: dl') (v0 :: values')) eqn:El; [|discriminate]. cbn [negb].
+  apply nat_eqb_len_true in El. rnum.
+  set (xs1 := if Rltb 0 d0 then 0 :: d0 :: dl' else d0 :: dl').
+  set (ys1 := if Rltb 0 d0 then v0 :: v0 :: values' else v0 :: values').
+  assert (H1 : (if Rltb 0 d0 then (0 :: d0 :: dl', v0 :: v0 :: values') else (d0 :: dl', v0 :: values')) = (xs1, ys1))
+    by (unfold xs1, ys1; destruct (Rltb 0 d0); reflexivity).
+  rewrite H1. clear H1.
+  assert (Hinc1 : increasing xs1).
+  { unfold xs1. destruct (Rltb_spec 0 d0) as [H0|H0]; [|exact Hinc].
+    constructor; [exact Hinc|]. constructor; [exact H0|]. inv Hinc. eapply Forall_impl; [|exact H3]. intros e He; cbn in He; lra. }
+  assert (Hl1 : length xs1 = length ys1) by (unfold xs1, ys1; destruct (Rltb 0 d0); cbn in *; congruence).
+  assert (Hstrip1 : forall x y, is_interp (combine xs1 ys1) x y -> is_interp (combine (d0 :: dl') (v0 :: values')) x y).
+  { unfold xs1, ys1. destruct (Rltb_spec 0 d0) as [H0|H0]; [|auto]. intros x y. cbn [combine]. apply is_interp_prepend; exact H0. }
+  assert (Hne : exists x1 xs1' y1 ys1', xs1 = x1 :: xs1' /\ ys1 = y1 :: ys1').
+  { unfold xs1, ys1. destruct (Rltb 0 d0); repeat eexists. }
+  destruct Hne as (x1 & xs1' & y1 & ys1' & Ex1 & Ey1).
+  destruct (Rltb_spec (last_F 0 xs1) zs) as [Hz|Hz]; intros Hth; apply interp_rows_forall2 in Hth.
+  - (* bottom point appended *)
+    rewrite Ex1 in Hz. cbn [last_F] in Hz.
+    destruct (last_F_last xs1' x1) as (fx & Efx). destruct (last_F_last ys1' y1) as (fy & Efy).
+    assert (Hc : combine xs1 ys1 = combine fx fy ++ [(last_F x1 xs1', last_F y1 ys1')]).
+    { apply combine_snoc; [exact Hl1| rewrite Ex1; exact Efx | rewrite Ey1; exact Efy]. }
+    assert (Hc2 : combine (xs1 ++ [zs]) (ys1 ++ [last_F 0 ys1]) = combine xs1 ys1 ++ [(zs, last_F y1 ys1')]).
+    { apply combine_snoc; [rewrite !app_length; cbn; lia|reflexivity|]. rewrite Ey1. reflexivity. }
+    assert (Hinc2 : increasing (xs1 ++ [zs])).
+    { apply increasing_snoc; [exact Hinc1|]. rewrite Ex1 in Hinc1 |- *. pose proof (increasing_le_last _ _ Hinc1) as Hle.
+      eapply Forall_impl; [|exact Hle]. intros e He; cbn in He; lra. }
+    eapply Forall2_imp; [|exact Hth]. intros mid t Hi. apply Hstrip1.
+    apply interp_spec in Hi; [|exact Hinc2|rewrite !app_length; cbn; lia].
+    rewrite Hc2, Hc in Hi. rewrite Hc. eapply is_interp_append; [exact Hz|exact Hi].
+  - eapply Forall2_imp; [|exact Hth]. intros mid t Hi. apply Hstrip1. apply interp_spec in Hi; auto.
+Qed.
+
+(* ============================================================================================
+   4. the deepening loop of read_model_parameters (as repaired by /repo commit 1d078f4: when no compartment is thinner
+   than 0.25 m the bottom compartment keeps growing, so the loop always ends) *)
+Lemma ltb_true_R (a b : R) : a < b -> nltb num_ops a b = true.
+Proof. rnum. apply Rltb_true. Qed.
+Lemma ltb_false_R (a b : R) : b <= a -> nltb num_ops a b = false.
+Proof. rnum. apply Rltb_false. Qed.
+
+(* when the loop ends the profile reaches at least Zmax + 0.1 (it ends strictly below the maximum rooting depth) *)
+Theorem deepen_reaches fuel : forall zmax rows zs rows' zs',
+  deepen fuel zmax rows zs = Some (rows', zs') -> zmax + 1 / 10 <= zs'.
+Proof.
+  induction fuel as [|f IH]; intros zmax rows zs rows' zs'; cbn [deepen]; [discriminate|].
+  destruct (nltb num_ops zs _) eqn:Hz.
+  - destruct (grow_step rows) as [r1|]; [|discriminate].
+    destruct (fill_nan r1) as [[r2 z2]|]; [apply IH|discriminate].
+  - intros E; inv E. revert Hz. rnum. destruct (Rltb_spec zs' (zmax + 1 / 10)); [discriminate|]. intros _. lra.
+Qed.
+
+(* what the loop never touches: the layer and its hydraulic properties — and zBot, z_top, zMid, which therefore no longer
+   agree with dz/dzsum once a compartment has grown (they keep their create_df values) *)
+Definition same_but_dz (r r' : RowR) : Prop :=
+  r_asg r' = r_asg r /\ r_zbot r' = r_zbot r /\ r_ztop r' = r_ztop r /\ r_zmid r' = r_zmid r.
+
+Lemma same_but_dz_refl rows : Forall2 same_but_dz rows rows.
+Proof. induction rows; constructor; auto. repeat split. Qed.
+
+Lemma same_but_dz_trans a b c : Forall2 same_but_dz a b -> Forall2 same_but_dz b c -> Forall2 same_but_dz a c.
+Proof.
+  intros H; revert c; induction H as [|x y a b (A1 & A2 & A3 & A4) _ IH]; intros c Hc; inv Hc; constructor; auto.
+  destruct H1 as (B1 & B2 & B3 & B4). repeat split; congruence.
+Qed.
+
+Definition assigned (r : RowR) : Prop := exists a, r_asg r = Some a.
+
+(* one pass of the for loop: the lowest compartment thinner than 0.25 m grows by 0.1 m ... *)
+Lemma grow_last_spec rows :
+  (Forall (fun r => 25 / 100 <= r_dz r) rows /\ grow_last rows = None) \/
+  (exists l1 r l2, rows = l1 ++ r :: l2 /\ r_dz r < 25 / 100 /\ Forall (fun q => 25 / 100 <= r_dz q) l2 /\
+                   grow_last rows = Some (l1 ++ set_dz r (r_dz r + 1 / 10) :: l2)).
+Proof.
+  induction rows as [|r rows IH]; [left; split; [constructor|reflexivity]|].
+  cbn [grow_last]. destruct IH as [[HF ->]|(l1 & q & l2 & -> & Hq & Hl2 & ->)].
+  - destruct (Rlt_dec (r_dz r) (25 / 100)) as [H|H].
+    + right. exists [], r, rows. rewrite ltb_true_R by (rnum; exact H). repeat split; auto.
+    + left. rewrite ltb_false_R by (rnum; lra). split; [constructor; [lra|exact HF]|reflexivity].
+  - right. exists (r :: l1), q, l2. repeat split; auto.
+Qed.
+
+(* ... or, when there is none, the bottom compartment does *)
+Lemma grow_bottom_spec rows : rows <> [] ->
+  exists l1 r, rows = l1 ++ [r] /\ grow_bottom rows = Some (l1 ++ [set_dz r (r_dz r + 1 / 10)]).
+Proof.
+  induction rows as [|r rows IH]; intros HN; [contradiction|].
+  destruct rows as [|r' rows].
+  - exists [], r. split; reflexivity.
+  - destruct (IH ltac:(discriminate)) as (l1 & q & E & Eg). exists (r :: l1), q. split; [cbn; rewrite E; reflexivity|].
+    change (grow_bottom (r :: r' :: rows)) with (match grow_bottom (r' :: rows) with Some rest' => Some (r :: rest') | None => None end).
+    rewrite Eg. reflexivity.
+Qed.
+
+(* in both cases exactly one compartment grows by 0.1 m *)
+Lemma grow_step_spec rows : rows <> [] ->
+  exists l1 r l2, rows = l1 ++ r :: l2 /\ grow_step rows = Some (l1 ++ set_dz r (r_dz r + 1 / 10) :: l2) /\
+                  Forall (fun q => 25 / 100 <= r_dz q) l2 /\ (25 / 100 <= r_dz r -> l2 = []).
+Proof.
+  intros HN. unfold grow_step. destruct (grow_last_spec rows) as [[HF ->]|(l1 & r & l2 & -> & Hr & Hl2 & ->)].
+  - destruct (grow_bottom_spec rows HN) as (l1 & r & -> & ->). exists l1, r, []. repeat split; auto.
+  - exists l1, r, l2. repeat split; auto. intros; lra.
+Qed.
+
+Lemma same_but_dz_mid l1 r l2 d : Forall2 same_but_dz (l1 ++ r :: l2) (l1 ++ set_dz r d :: l2).
+Proof.
+  induction l1 as [|x l1 IH]; cbn.
+  - constructor; [repeat split|apply same_but_dz_refl].
+  - constructor; [repeat split|exact IH].
+Qed.
+
+Lemma redz_rows_same rows : forall acc, Forall2 same_but_dz rows (redz_rows acc rows).
+Proof. induction rows as [|r rows IH]; intros acc; cbn; constructor; auto. repeat split. Qed.
+
+Lemma same_assigned rows rows' : Forall2 same_but_dz rows rows' -> Forall assigned rows -> Forall assigned rows'.
+Proof.
+  induction 1 as [|r r' rows rows' (A & _) _ IH]; intros H; [constructor|]. inv H. constructor; [unfold assigned; rewrite A; assumption|auto].
+Qed.
+
+Lemma fill_nan_same rows rows' zs : Forall assigned rows -> fill_nan rows = Some (rows', zs) -> Forall2 same_but_dz rows rows'.
+Proof.
+  intros HA. unfold fill_nan. destruct (existsb _ _); [discriminate|]. intros E; inv E.
+  rewrite (ffill_rows_assigned rows HA None). apply redz_rows_same.
+Qed.
+
+(* THEOREM 4a: layer properties are preserved by deepening (and zBot, z_top, zMid are left as they were) *)
+Theorem deepen_preserves fuel : forall zmax rows zs rows' zs',
+  Forall assigned rows -> deepen fuel zmax rows zs = Some (rows', zs') -> Forall2 same_but_dz rows rows'.
+Proof.
+  induction fuel as [|f IH]; intros zmax rows zs rows' zs' HA; cbn [deepen]; [discriminate|].
+  match goal with |- context [if ?b then _ else _] => destruct b end.
+  - destruct rows as [|r0 rows0]; [discriminate|].
+    destruct (grow_step_spec (r0 :: rows0) ltac:(discriminate)) as (l1 & r & l2 & E & -> & _).
+    destruct (fill_nan _) as [[r2 z2]|] eqn:E2; [|discriminate]. intros Ed. rewrite E in *.
+    pose proof (same_but_dz_mid l1 r l2 (r_dz r + 1 / 10)) as S1. pose proof (same_assigned _ _ S1 HA) as HA1.
+    pose proof (fill_nan_same _ _ _ HA1 E2) as S2. pose proof (same_assigned _ _ S2 HA1) as HA2.
+    eapply same_but_dz_trans; [exact S1|]. eapply same_but_dz_trans; [exact S2|]. eapply IH; [exact HA2|exact Ed].
+  - intros E; inv E. apply same_but_dz_refl.
+Qed.
+
+(* --------------------------------------------------------------------------------------------
+   whole-centimetre profiles: every rounding in fill_nan is exact *)
+Fixpoint sums_ok (top : R) (rows : list RowR) : Prop :=
+  match rows with [] => True | r :: rest => r_dzsum r = top + r_dz r /\ sums_ok (r_dzsum r) rest end.
+
+Lemma geom_sums top rows : geom_ok top rows -> sums_ok top rows.
+Proof. revert top; induction rows as [|r rows IH]; intros top; cbn; [auto|]. intros (A & _ & _ & _ & G). split; auto. Qed.
+
+Lemma cm_grow d : cm d -> cm (d + 1 / 10).
+Proof. intros (k & Hk & ->). exists (k + 10)%Z. split; [lia|]. rewrite plus_IZR. lra. Qed.
+
+Lemma redz_rows_cm rows : forall acc, cm0 acc -> Forall cm (map r_dz rows) ->
+  map r_dz (redz_rows acc rows) = map r_dz rows /\ sums_ok acc (redz_rows acc rows).
+Proof.
+  induction rows as [|r rows IH]; intros acc Ha H; cbn; [split; [reflexivity|exact I]|]. cbn in H. inv H. rnum.
+  rewrite (cm_round _ H2). pose proof (cm0_plus _ _ Ha H2) as Hs. rewrite (cm0_round _ Hs).
+  destruct (IH (acc + r_dz r) Hs H3) as [E S]. split; [f_equal; exact E|]. split; [reflexivity|exact S].
+Qed.
+
+Lemma fill_nan_cm rows : Forall assigned rows -> Forall cm (map r_dz rows) ->
+  exists rows', fill_nan rows = Some (rows', Rsum (map r_dz rows)) /\ map r_dz rows' = map r_dz rows /\
+                Forall assigned rows' /\ sums_ok 0 rows'.
+Proof.
+  intros HA Hc. unfold fill_nan. rewrite (ffill_rows_assigned rows HA None).
+  assert (H0 : cm0 (nofZ num_ops 0)) by exact cm0_0.
+  destruct (redz_rows_cm rows (nofZ num_ops 0) H0 Hc) as [Hdz Hsum].
+  assert (HA' : Forall assigned (redz_rows (nofZ num_ops 0) rows)).
+  { eapply same_assigned; [apply redz_rows_same|exact HA]. }
+  destruct (existsb is_unassigned (redz_rows (nofZ num_ops 0) rows)) eqn:Ee.
+  - exfalso. apply existsb_exists in Ee. destruct Ee as (r & Ir & Hr). rewrite Forall_forall in HA'.
+    destruct (HA' r Ir) as (a & Ea). unfold is_unassigned in Hr. rewrite Ea in Hr. discriminate.
+  - eexists. split; [|split; [exact Hdz|split; [exact HA'|exact Hsum]]]. rewrite Hdz, pw_sum_sum. rnum.
+    rewrite cm0_round; [reflexivity|]. apply Rsum_cm0; exact Hc.
+Qed.
+
+Lemma Rsum_mid a d b : Rsum (a ++ d :: b) = Rsum a + (d + Rsum b).
+Proof. rewrite Rsum_app. reflexivity. Qed.
+
+(* one iteration of the while loop *)
+Lemma deepen_step_cm rows : rows <> [] -> Forall assigned rows -> Forall cm (map r_dz rows) ->
+  exists r1 r2, grow_step rows = Some r1 /\ fill_nan r1 = Some (r2, Rsum (map r_dz r2)) /\ r2 <> [] /\
+     Forall assigned r2 /\ Forall cm (map r_dz r2) /\ sums_ok 0 r2 /\ Rsum (map r_dz r2) = Rsum (map r_dz rows) + 1 / 10.
+Proof.
+  intros HN HA Hc. destruct (grow_step_spec rows HN) as (l1 & r & l2 & -> & Eg & _).
+  set (r1 := l1 ++ set_dz r (r_dz r + 1 / 10) :: l2) in *.
+  assert (HA1 : Forall assigned r1) by (eapply same_assigned; [apply same_but_dz_mid|exact HA]).
+  assert (Hdz1 : map r_dz r1 = map r_dz l1 ++ (r_dz r + 1 / 10) :: map r_dz l2) by (unfold r1; rewrite map_app; reflexivity).
+  rewrite map_app in Hc. cbn [map] in Hc. apply Forall_app in Hc. destruct Hc as [C1 C2]. inv C2.
+  assert (Hc1 : Forall cm (map r_dz r1)).
+  { rewrite Hdz1. apply Forall_app; split; [exact C1|]. constructor; [apply cm_grow; assumption|assumption]. }
+  destruct (fill_nan_cm r1 HA1 Hc1) as (r2 & Ef & Hdz2 & HA2 & Hs2).
+  exists r1, r2. rewrite Hdz2. repeat split; auto.
+  - intros ->. destruct l1; discriminate.
+  - rewrite Hdz1, map_app. cbn [map]. rewrite !Rsum_mid. lra.
+Qed.
+
+(* THEOREM 4b (termination, unconditional for whole-centimetre profiles): n iterations suffice as soon as
+   n * 0.1 >= Zmax + 0.1 - zSoil; fuel n+1 because the last call only evaluates the loop condition *)
+Theorem deepen_terminates zmax : forall n rows zs,
+  rows <> [] -> Forall assigned rows -> Forall cm (map r_dz rows) -> zs = Rsum (map r_dz rows) ->
+  zmax + 1 / 10 - zs <= INR n / 10 ->
+  exists res, deepen (S n) zmax rows zs = Some res.
+Proof.
+  induction n as [|n IH]; intros rows zs HN HA Hc Hz Hn; cbn [deepen].
+  - cbn in Hn. rewrite ltb_false_R by (rnum; lra). eauto.
+  - destruct (Rlt_dec zs (zmax + 1 / 10)) as [H|H].
+    + rewrite ltb_true_R by (rnum; exact H).
+      destruct (deepen_step_cm rows HN HA Hc) as (r1 & r2 & -> & -> & HN2 & HA2 & Hc2 & _ & Hsum).
+      apply IH; auto. rewrite Hsum, <- Hz. rewrite S_INR in Hn. lra.
+    + rewrite ltb_false_R by (rnum; lra). eauto.
+Qed.
+
+(* THEOREM 4c: what IS true after deepening a whole-centimetre profile: thicknesses are still whole centimetres, dzsum is the
+   running sum of the NEW thicknesses and zSoil their total *)
+Theorem deepen_sums fuel : forall zmax rows zs rows' zs',
+  rows <> [] -> Forall assigned rows -> Forall cm (map r_dz rows) -> sums_ok 0 rows -> zs = Rsum (map r_dz rows) ->
+  deepen fuel zmax rows zs = Some (rows', zs') ->
+  Forall cm (map r_dz rows') /\ sums_ok 0 rows' /\ zs' = Rsum (map r_dz rows') /\ Rsum (map r_dz rows) <= zs'.
+Proof.
+  induction fuel as [|f IH]; intros zmax rows zs rows' zs' HN HA Hc Hs Hz; cbn [deepen]; [discriminate|].
+  match goal with |- context [if ?b then _ else _] => destruct b end.
+  - destruct (deepen_step_cm rows HN HA Hc) as (r1 & r2 & -> & -> & HN2 & HA2 & Hc2 & Hs2 & Hsum). intros E.
+    destruct (IH _ _ _ _ _ HN2 HA2 Hc2 Hs2 eq_refl E) as (A & B & C & D). repeat split; auto. lra.
+  - intros E; inv E. repeat split; auto. lra.
+Qed.
+
+(* THEOREM 4d (open defect, refuted geometry): fill_nan recomputes dz, dzsum and zSoil but not zBot, z_top, zMid.  Whenever
+   the loop runs at least once on a well-formed whole-centimetre profile, the bottom compartment ends with
+   zBot = old profile depth < new profile depth = dzsum, so the geometry statement of C18 fails for the deepened profile *)
+Lemma last_sums (rows : list RowR) : forall top d, sums_ok top rows -> rows <> [] ->
+  r_dzsum (last rows d) = top + Rsum (map r_dz rows).
+Proof.
+  induction rows as [|r rows IH]; intros top d H HN; [contradiction|]. destruct H as [A S].
+  destruct rows as [|r' rows]; [cbn; lra|].
+  change (last (r :: r' :: rows) d) with (last (r' :: rows) d). rewrite (IH _ d S ltac:(discriminate)). cbn [map Rsum]. lra.
+Qed.
+
+Lemma last_zbot (rows : list RowR) : forall top d, geom_ok top rows -> rows <> [] ->
+  r_zbot (last rows d) = top + Rsum (map r_dz rows).
+Proof.
+  induction rows as [|r rows IH]; intros top d H HN; [contradiction|]. destruct H as (A & B & _ & _ & G).
+  destruct rows as [|r' rows]; [cbn; lra|].
+  change (last (r :: r' :: rows) d) with (last (r' :: rows) d). rewrite (IH _ d G ltac:(discriminate)). cbn [map Rsum]. lra.
+Qed.
+
+Lemma last_same rows rows' d : Forall2 same_but_dz rows rows' -> r_zbot (last rows' d) = r_zbot (last rows d).
+Proof.
+  induction 1 as [|r r' rows rows' (_ & B & _) H IH]; [reflexivity|].
+  destruct H as [|r2 r2' rows2 rows2' H2 H3]; [cbn; exact B|]. exact IH.
+Qed.
+
+Theorem deepen_geometry_refuted fuel zmax rows zs rows' zs' d :
+  rows <> [] -> Forall assigned rows -> Forall cm (map r_dz rows) -> geom_ok 0 rows -> zs = Rsum (map r_dz rows) ->
+  zs < zmax + 1 / 10 ->
+  deepen fuel zmax rows zs = Some (rows', zs') ->
+  r_zbot (last rows' d) = zs /\ r_dzsum (last rows' d) = zs' /\ zs < zs' /\ ~ geom_ok 0 rows'.
+Proof.
+  intros HN HA Hc Hg Hz Hlt Hd.
+  pose proof (deepen_reaches _ _ _ _ _ _ Hd) as Hreach.
+  pose proof (deepen_preserves _ _ _ _ _ _ HA Hd) as Hsame.
+  destruct (deepen_sums _ _ _ _ _ _ HN HA Hc (geom_sums _ _ Hg) Hz Hd) as (Hc' & Hs' & Hz' & _).
+  assert (HN' : rows' <> []) by (intros ->; inv Hsame; contradiction).
+  assert (E1 : r_zbot (last rows' d) = zs).
+  { rewrite (last_same _ _ d Hsame), (last_zbot _ 0 d Hg HN), Hz. lra. }
+  assert (E2 : r_dzsum (last rows' d) = zs').
+  { rewrite (last_sums _ 0 d Hs' HN'), Hz'. lra. }
+  repeat split; auto; [lra|].
+  intros Hg'. pose proof (last_zbot _ 0 d Hg' HN') as E3. rewrite E1, <- Hz' in E3. lra.
+Qed.
+
+(* ============================================================================================
+   3. Saxton & Rawls pedotransfer: ordering of the derived water contents *)
+Definition raw_wp sand clay om := fst (fst (fst (sr_raw (F:=R) sand clay om))).
+Definition raw_fc sand clay om := snd (fst (fst (sr_raw (F:=R) sand clay om))).
+Definition raw_s sand clay om := snd (fst (sr_raw (F:=R) sand clay om)).
+
+Lemma le_shift a b c : c <= b - a -> a + c <= b.
+Proof. lra. Qed.
+
+Lemma rnd_dec_1000 x : rnd_dec 1000 x = Rround 3 x.
+Proof. unfold rnd_dec. rnum. unfold Rround, pow10. simpl (IZR (10 ^ Z.max 3 0)). rewrite (Rmult_comm 1000 x). reflexivity. Qed.
+
+Lemma rnd_dec_1000_err x : x - 5 / 10000 <= rnd_dec 1000 x <= x + 5 / 10000.
+Proof.
+  rewrite rnd_dec_1000. pose proof (Rround_err 3 x) as H.
+  assert (E : pow10 3 = 1000) by (unfold pow10; simpl; lra). rewrite E in H.
+  revert H. unfold Rabs. destruct (Rcase_abs _); lra.
+Qed.
+
+(* margins before rounding (to 3 decimals) carry over to the rounded values the layer receives *)
+Lemma texture_from_margins sand clay om wp fc s ks :
+  1 / 1000 <= raw_wp sand clay om -> raw_wp sand clay om + 2 / 1000 <= raw_fc sand clay om ->
+  raw_fc sand clay om + 2 / 1000 <= raw_s sand clay om ->
+  texture_props sand clay om = Some (wp, fc, s, ks) -> 0 < wp /\ wp < fc /\ fc < s.
+Proof.
+  unfold raw_wp, raw_fc, raw_s, texture_props. destruct (sr_raw sand clay om) as [[[a b] c] d]. cbn [fst snd].
+  intros H1 H2 H3. destruct (nfinite d); [|discriminate]. intros E. inv E.
+  pose proof (rnd_dec_1000_err a). pose proof (rnd_dec_1000_err b). pose proof (rnd_dec_1000_err c).
+  unfold rnd_dec in *. rnum. lra.
+Qed.
+
+Ltac tex_box sand clay om d := intros Hs Hc Ho; unfold raw_wp, raw_fc, raw_s, sr_raw; cbn [fst snd]; rnum; try apply le_shift;
+  interval with (i_bisect sand, i_bisect clay, i_bisect om, i_depth d).
+
+(* sub-boxes of the calibrated range (sand, clay in %, organic matter in %w) on which the margins hold; proved by interval
+   arithmetic with bisection *)
+Definition tex_box1 sand clay om := 0 <= sand <= 50 /\ 0 <= clay <= 50 /\ 0 <= om <= 8.
+Definition tex_box2 sand clay om := 50 <= sand <= 90 /\ 4 <= clay <= 10 /\ 0 <= om <= 8.
+Definition tex_box3 sand clay om := 50 <= sand <= 80 /\ 10 <= clay <= 20 /\ 0 <= om <= 8.
+Definition tex_box4 sand clay om := 50 <= sand <= 60 /\ 20 <= clay <= 40 /\ 0 <= om <= 8.
+Definition tex_box5 sand clay om := 0 <= sand <= 40 /\ 50 <= clay <= 60 /\ 0 <= om <= 3.
+
+Lemma box1_wp sand clay om : 0 <= sand <= 50 -> 0 <= clay <= 50 -> 0 <= om <= 8 -> 1 / 1000 <= raw_wp sand clay om.
+Proof. tex_box sand clay om 21%nat. Qed.
+Lemma box1_fc sand clay om : 0 <= sand <= 50 -> 0 <= clay <= 50 -> 0 <= om <= 8 -> raw_wp sand clay om + 2 / 1000 <= raw_fc sand clay om.
+Proof. tex_box sand clay om 21%nat. Qed.
+Lemma box1_s sand clay om : 0 <= sand <= 50 -> 0 <= clay <= 50 -> 0 <= om <= 8 -> raw_fc sand clay om + 2 / 1000 <= raw_s sand clay om.
+Proof. tex_box sand clay om 24%nat. Qed.
+Lemma box2_wp sand clay om : 50 <= sand <= 90 -> 4 <= clay <= 10 -> 0 <= om <= 8 -> 1 / 1000 <= raw_wp sand clay om.
+Proof. tex_box sand clay om 21%nat. Qed.
+Lemma box2_fc sand clay om : 50 <= sand <= 90 -> 4 <= clay <= 10 -> 0 <= om <= 8 -> raw_wp sand clay om + 2 / 1000 <= raw_fc sand clay om.
+Proof. tex_box sand clay om 21%nat. Qed.
+Lemma box2_s sand clay om : 50 <= sand <= 90 -> 4 <= clay <= 10 -> 0 <= om <= 8 -> raw_fc sand clay om + 2 / 1000 <= raw_s sand clay om.
+Proof. tex_box sand clay om 24%nat. Qed.
+Lemma box3_wp sand clay om : 50 <= sand <= 80 -> 10 <= clay <= 20 -> 0 <= om <= 8 -> 1 / 1000 <= raw_wp sand clay om.
+Proof. tex_box sand clay om 21%nat. Qed.
+Lemma box3_fc sand clay om : 50 <= sand <= 80 -> 10 <= clay <= 20 -> 0 <= om <= 8 -> raw_wp sand clay om + 2 / 1000 <= raw_fc sand clay om.
+Proof. tex_box sand clay om 21%nat. Qed.
+Lemma box3_s sand clay om : 50 <= sand <= 80 -> 10 <= clay <= 20 -> 0 <= om <= 8 -> raw_fc sand clay om + 2 / 1000 <= raw_s sand clay om.
+Proof. tex_box sand clay om 24%nat. Qed.
+Lemma box4_wp sand clay om : 50 <= sand <= 60 -> 20 <= clay <= 40 -> 0 <= om <= 8 -> 1 / 1000 <= raw_wp sand clay om.
+Proof. tex_box sand clay om 21%nat. Qed.
+Lemma box4_fc sand clay om : 50 <= sand <= 60 -> 20 <= clay <= 40 -> 0 <= om <= 8 -> raw_wp sand clay om + 2 / 1000 <= raw_fc sand clay om.
+Proof. tex_box sand clay om 21%nat. Qed.
+Lemma box4_s sand clay om : 50 <= sand <= 60 -> 20 <= clay <= 40 -> 0 <= om <= 8 -> raw_fc sand clay om + 2 / 1000 <= raw_s sand clay om.
+Proof. tex_box sand clay om 24%nat. Qed.
+Lemma box5_wp sand clay om : 0 <= sand <= 40 -> 50 <= clay <= 60 -> 0 <= om <= 3 -> 1 / 1000 <= raw_wp sand clay om.
+Proof. tex_box sand clay om 21%nat. Qed.
+Lemma box5_fc sand clay om : 0 <= sand <= 40 -> 50 <= clay <= 60 -> 0 <= om <= 3 -> raw_wp sand clay om + 2 / 1000 <= raw_fc sand clay om.
+Proof. tex_box sand clay om 21%nat. Qed.
+Lemma box5_s sand clay om : 0 <= sand <= 40 -> 50 <= clay <= 60 -> 0 <= om <= 3 -> raw_fc sand clay om + 2 / 1000 <= raw_s sand clay om.
+Proof. tex_box sand clay om 30%nat. Qed.
+
+(* THEOREM 3 (partial): wp < fc < s on five sub-boxes of the calibrated range.
+   The full statement — for all 0 <= sand, 0 <= clay <= 60, sand + clay <= 100, 0 <= om <= 8 — is FALSE, see
+   [texture_ordered_refuted] below; not covered here: sand > 90 %, and the strips clay < 4 % with sand > 50 %,
+   clay > 50 % with om > 3 %, sand + clay close to 100 with sand > 60 %. *)
+Theorem texture_ordered_partial sand clay om wp fc s ks :
+  tex_box1 sand clay om \/ tex_box2 sand clay om \/ tex_box3 sand clay om \/ tex_box4 sand clay om \/ tex_box5 sand clay om ->
+  texture_props sand clay om = Some (wp, fc, s, ks) -> 0 < wp /\ wp < fc /\ fc < s.
+Proof.
+  intros [(A & B & C)|[(A & B & C)|[(A & B & C)|[(A & B & C)|(A & B & C)]]]]; apply texture_from_margins.
+  - apply box1_wp; assumption. - apply box1_fc; assumption. - apply box1_s; assumption.
+  - apply box2_wp; assumption. - apply box2_fc; assumption. - apply box2_s; assumption.
+  - apply box3_wp; assumption. - apply box3_fc; assumption. - apply box3_s; assumption.
+  - apply box4_wp; assumption. - apply box4_fc; assumption. - apply box4_s; assumption.
+  - apply box5_wp; assumption. - apply box5_fc; assumption. - apply box5_s; assumption.
+Qed.
+
+(* the calibrated range contains textures for which the pedotransfer yields a negative wilting point (pure sand) or a
+   saturation below field capacity (40 % sand, 60 % clay, 8 % organic matter); in the code np.log / ** then produce NaN and
+   round() raises ValueError *)
+Theorem texture_ordered_refuted :
+  raw_wp 100 0 0 < 0 /\ raw_s 40 60 8 < raw_fc 40 60 8.
+Proof.
+  split.
+  - unfold raw_wp, sr_raw. cbn [fst snd]. rnum. interval.
+  - unfold raw_s, raw_fc, sr_raw. cbn [fst snd]. rnum. apply Rminus_lt. interval.
+Qed.
+
+(* ============================================================================================
+   Examples: the hypotheses of the main theorems are satisfiable; concrete instances of finding 9 *)
+Definition ex_layer : SpecR :=
+  {| ls_thick := 2 / 10; ls_wp := 1 / 10; ls_fc := 22 / 100; ls_s := 41 / 100; ls_ksat := 1200; ls_pen := 100 |}.   (* SandyLoam *)
+Definition ex_row (d s : R) : RowR :=
+  {| r_dz := d; r_dzsum := s; r_zbot := s; r_ztop := s - d; r_zmid := (s - d + s) / 2; r_asg := Some (mk_asg 1 ex_layer) |}.
+
+Lemma rr_a : Rround 2 (0 + 1 / 10) = 1 / 10.
+Proof. replace (0 + 1 / 10) with (IZR 10 / 100) by lra. rewrite Rround2_cm. lra. Qed.
+Lemma rr_b : Rround 2 (1 / 10) = 1 / 10.
+Proof. replace (1 / 10) with (IZR 10 / 100) by lra. rewrite Rround2_cm. lra. Qed.
+Lemma rr_c : Rround 2 (0 + 1 / 10 + 1 / 10) = 2 / 10.
+Proof. replace (0 + 1 / 10 + 1 / 10) with (IZR 20 / 100) by lra. rewrite Rround2_cm. lra. Qed.
+Lemma rr_d : Rround 2 (2 / 10) = 2 / 10.
+Proof. replace (2 / 10) with (IZR 20 / 100) by lra. rewrite Rround2_cm. lra. Qed.
+
+(* a two-compartment SandyLoam profile is built, so build_ordered / build_wf / build_wf_geometry / build_layers_contiguous
+   apply to it *)
+Example build_ex : exists p, build_profile [1 / 10; 1 / 10] [ex_layer] = Some p /\ wf_prof p /\ length p = 2%nat.
+Proof.
+  assert (E : exists p, build_profile [1 / 10; 1 / 10] [ex_layer] = Some p /\ length p = 2%nat).
+  { unfold build_profile, build_rows, create_df, add_layers, add_layer, fill_nan. cbn [create_rows max_layer fold_left r_asg].
+    cbn [Z.add Z.eqb Pos.eqb Pos.add Pos.succ]. cbn [ex_layer ls_ksat ls_thick]. rnum.
+    rewrite (Rltb_false 1200 0) by lra. cbn [map r_dzsum]. rewrite rr_a, rr_c, !rr_b, !rr_d.
+    rewrite (Rleb_true (1 / 10) (2 / 10)) by lra. rewrite (Rleb_true (2 / 10) (2 / 10)) by lra.
+    cbn [ffill_rows redz_rows set_asg r_asg r_dz set_dz_dzsum existsb is_unassigned orb]. rnum.
+    cbn [to_comps to_comp map r_asg]. eexists. split; [reflexivity|reflexivity]. }
+  destruct E as (p & E & L). exists p. repeat split; auto.
+  eapply build_wf; [| |exact E].
+  - repeat constructor; exists 10%Z; (split; [lia|lra]).
+  - repeat constructor; cbn; lra.
+Qed.
+
+Example geometry_ex rows zs : build_rows [1 / 10; 1 / 10] [ex_layer] = Some (rows, zs) ->
+  zs = 2 / 10 /\ exists n, blocks (from_spec [ex_layer]) 0 n rows.
+Proof.
+  intros H. split.
+  - assert (Hc : Forall cm [1 / 10; 1 / 10]) by (repeat constructor; exists 10%Z; (split; [lia|lra])).
+    destruct (build_wf_geometry _ _ _ _ Hc H) as (_ & _ & ->). cbn. lra.
+  - assert (Hp : Forall (fun d => 0 <= d) [1 / 10; 1 / 10]) by (repeat constructor; lra).
+    destruct (build_layers_contiguous _ _ _ _ Hp H) as (n & Hn & _). exists n; exact Hn.
+Qed.
+
+Definition ex_rows12 : list RowR :=
+  [ex_row (1 / 10) (1 / 10); ex_row (1 / 10) (2 / 10); ex_row (1 / 10) (3 / 10); ex_row (1 / 10) (4 / 10);
+   ex_row (1 / 10) (5 / 10); ex_row (1 / 10) (6 / 10); ex_row (1 / 10) (7 / 10); ex_row (1 / 10) (8 / 10);
+   ex_row (1 / 10) (9 / 10); ex_row (1 / 10) (10 / 10); ex_row (1 / 10) (11 / 10); ex_row (1 / 10) (12 / 10)].
+
+Lemma ex_rows12_ok : ex_rows12 <> [] /\ Forall assigned ex_rows12 /\ Forall cm (map r_dz ex_rows12) /\ geom_ok 0 ex_rows12 /\
+                     12 / 10 = Rsum (map r_dz ex_rows12).
+Proof.
+  split; [discriminate|]. split; [repeat constructor; eexists; reflexivity|].
+  split; [repeat constructor; exists 10%Z; (split; [lia|cbn; lra])|]. split; [cbn; repeat split; lra|cbn; lra].
+Qed.
+
+(* the default SandyLoam profile (12 x 0.1 m) under Maize (Zmax = 2.3 m): the loop terminates (12 iterations suffice) ... *)
+Example deepen_terminates_ex : exists res, deepen 13 (23 / 10) ex_rows12 (12 / 10) = Some res.
+Proof.
+  destruct ex_rows12_ok as (A & B & C & _ & E). apply deepen_terminates; auto. simpl INR. lra.
+Qed.
+
+(* ... and the result is the witness of the open geometry defect: the profile is now at least 2.4 m deep (zSoil, last dzsum)
+   while the bottom compartment still says zBot = 1.2 m *)
+Example deepen_geometry_refuted_ex : exists rows' zs',
+  deepen 13 (23 / 10) ex_rows12 (12 / 10) = Some (rows', zs') /\
+  24 / 10 <= zs' /\ r_dzsum (last rows' (ex_row 0 0)) = zs' /\ r_zbot (last rows' (ex_row 0 0)) = 12 / 10 /\ ~ geom_ok 0 rows'.
+Proof.
+  destruct deepen_terminates_ex as ([rows' zs'] & Hd). exists rows', zs'. split; [exact Hd|].
+  destruct ex_rows12_ok as (A & B & C & G & E).
+  destruct (deepen_geometry_refuted _ _ _ _ _ _ (ex_row 0 0) A B C G E ltac:(lra) Hd) as (H1 & H2 & H3 & H4).
+  pose proof (deepen_reaches _ _ _ _ _ _ Hd). repeat split; auto. lra.
+Qed.
+
+(* the former finding 9 (dz = [0.3]*4 under Maize looped for ever): with the repaired loop it terminates *)
+Example deepen_former_hang_ex : exists res,
+  deepen 13 (23 / 10) [ex_row (3 / 10) (3 / 10); ex_row (3 / 10) (6 / 10); ex_row (3 / 10) (9 / 10); ex_row (3 / 10) (12 / 10)]
+         (12 / 10) = Some res.
+Proof.
+  apply deepen_terminates.
+  - discriminate.
+  - repeat constructor; eexists; reflexivity.
+  - repeat constructor; exists 30%Z; (split; [lia|cbn; lra]).
+  - cbn. lra.
+  - simpl INR. lra.
+Qed.
+
+(* the pedotransfer boxes are inhabited: a loam (40 % sand, 20 % clay, 2.5 % organic matter) *)
+Example texture_ex wp fc s ks : texture_props 40 20 (25 / 10) = Some (wp, fc, s, ks) -> 0 < wp /\ wp < fc /\ fc < s.
+Proof. apply texture_ordered_partial. left. unfold tex_box1. lra. Qed.
